@@ -65,7 +65,8 @@ def int_configs(tier, seed):
     cfgs.append(meta_config('integers-long', longp, 7 if tier == 'quick' else 11))
     # many-digit bounds and candidates, given as seed texts (beyond anything the text enumeration reaches)
     big = []
-    for (lo, hi) in [(123456789012, 123456789123), (99999999, 100000000001), (0, 10 ** 15), (5 * 10 ** 11, 5 * 10 ** 11)]:
+    for (lo, hi) in [(123456789012, 123456789123), (99999999, 100000000001), (0, 10 ** 15), (5 * 10 ** 11, 5 * 10 ** 11), (10 ** 6, 2 * 10 ** 6),
+                     (10 ** 9, 10 ** 9 + 5), (1000, 9999), (10 ** 12, 10 ** 13)]:
         cands = set()
         for v in (lo - 1, lo, lo + 1, hi - 1, hi, hi + 1, (lo + hi) // 2, hi * 10, lo // 10):
             if v >= 0:
@@ -98,6 +99,11 @@ def dec_configs(tier, seed):
         cands = ['%s.%s' % (i, '5' * k) for i in ('0', '7', '12', '') for k in (a - 1, a, a + 1, 12, 13, 30)]
         for kind, sign in DEC_KINDS:
             longf.append(par(kind, '', sign=sign, lo=0, hi=99, dmin=a, dmax=b, seeds=cands + ['-' + c for c in cands[:6]]))
+    # the default upper bound of the integer part (2147483647) and its neighbours with ten and eleven digits
+    for kind, sign in DEC_KINDS:
+        for ext in (False, True):
+            longf.append(par(kind, '', ext=ext, sign=sign, lo=0, hi=2147483647, dmin=1, dmax=-1,
+                             seeds=[i + '.5' for i in ('2147483647', '2147483648', '2147483646', '9999999999', '10000000000', '999999999', '02147483647', '3000000000')]))
     return [meta_config('decimals-exact', ps, 4 if tier == 'quick' else 5),
             meta_config('decimals-long-fractions', longf, 0),
             meta_config('decimals-embedded', [], 0, decbase=base, decmids=mids, decctxs=ctxs)]
@@ -119,8 +125,8 @@ def word_configs(tier, seed):
         for glob in (True, False):
             for ext in (False, True):
                 ps.append(par('Word', 'aB1_ -', ext=ext, nmin=n, nmax=m, glob=glob))
-    affix_sets = [('a',), ('ab',), ('b', 'a1'), ('_',), ('b', 'ab'), ('a', 'ba')] if tier == 'quick' else \
-        [('a',), ('ab',), ('b', 'a1'), ('_',), ('aa', 'b'), ('1',), ('ab', 'ba', 'B'), ('b', 'ab'), ('a', 'ba'), ('1', 'a1b')]
+    affix_sets = [('a',), ('ab',), ('b', 'a1'), ('_',), ('b', 'ab'), ('a', 'ba'), ('ab', 'bab', 'aa', '1'), ('ab', 'abb', 'a1', '1a')] if tier == 'quick' else \
+        [('a',), ('ab',), ('b', 'a1'), ('_',), ('aa', 'b'), ('1',), ('ab', 'ba', 'B'), ('b', 'ab'), ('a', 'ba'), ('1', 'a1b'), ('ab', 'bab', 'aa', '1'), ('ab', 'abb', 'a1', '1a'), ('a1', 'ba1b', '_', 'bb', '11')]
     for k in ('WordContains', 'WordStartsWith', 'WordEndsWith'):
         for aff in affix_sets:
             for glob in (True, False):
@@ -202,7 +208,20 @@ def date_configs(tier, seed):
     lists.append(tuple(fmts))                                   # formats=None selects all documented formats
     for _ in range(3 if tier == 'quick' else 12):
         lists.append(tuple(rnd.sample(fmts, rnd.randint(2, 5))))
-    return [meta_config('dates', [], 0, fmtlists=lists, cands=cands, exts=(False, True) if tier != 'quick' else (False,))]
+    # pairs of formats that differ only in the width of day and month (same order, separator and year), and mixed-width pairs
+    def variant(f, d, m):
+        return tuple(d if x in ('d', 'dd') else m if x in ('m', 'mm') else x for x in f[:3]) + (f[3],)
+    pairs = []
+    for f in fmts:
+        if 'd' in f[:3] and 'm' in f[:3]:
+            pairs.append((f, variant(f, 'dd', 'mm')))
+            pairs.append((variant(f, 'dd', 'm'), variant(f, 'd', 'mm')))
+    lists += pairs if tier != 'quick' else pairs[::3]
+    cfgs = [meta_config('dates', [], 0, fmtlists=lists, cands=cands, exts=(False, True) if tier != 'quick' else (False,))]
+    if tier == 'quick':
+        # is_extensible=True on a selection of the lists (all of them in the thorough tier)
+        cfgs.append(meta_config('dates-extensible', [], 0, fmtlists=lists[1:len(lists):4] + [tuple(fmts)], cands=cands, exts=(True,)))
+    return cfgs
 
 
 ARGS_CTORS = {'C15': ['Integer', 'PositiveInteger', 'NegativeInteger', 'UnsignedInteger'],
